@@ -271,12 +271,8 @@ def call_builtin(m: Any, name: str, args: list[V], kwargs: dict[str, V], node: a
         raise EngineError(f"type() of {v!r} (needs an area hook)")
     if name in ("getattr", "hasattr", "setattr"):
         if name == "getattr" and isinstance(args[1], VStr) and z3.is_string_value(args[1].term):
-            try:
-                return m.getattr(args[0], args[1].term.as_string())
-            except EngineError:
-                if len(args) > 2:
-                    return args[2]
-                raise
+            # an attribute the model does not know is *not* known to be absent: never fall back to the default
+            return m.getattr(args[0], args[1].term.as_string())
         raise EngineError(f"{name} with a symbolic name (needs an area hook)")
     if name == "sorted":
         raise EngineError("sorted() (needs an area hook)")
